@@ -684,6 +684,11 @@ class PteraTransformer(NodeTransformer):
         # A nested coroutine is left alone, like any nested function
         return node
 
+    def visit_Lambda(self, node):
+        # A lambda is a nested function: what it binds, yields or returns
+        # is its own business
+        return node
+
     def visit_For(self, node):
         new_body = self.generate_interactions(node.target)
         new_body.extend(self.visit_body(node.body))
